@@ -554,11 +554,18 @@ impl<R: RuleType> Error<R> {
         let offset = start - 1;
         let line_chars = self.inner.line.chars();
 
+        let mut padded = 0;
         for c in line_chars.take(offset) {
             match c {
                 '\t' => underline.push('\t'),
                 _ => underline.push(' '),
             }
+            padded += 1;
+        }
+        // The displayed line can be shorter than the column (line breaks are not displayed):
+        // keep the marker under the reported column.
+        for _ in padded..offset {
+            underline.push(' ');
         }
 
         if let Some(end) = end {
